@@ -65,10 +65,12 @@ func rulesC19(c *Ctx) {
 	c.c19NoStaleCounter()
 	R.Rule("R5", "outputs are derived from the stored counter of the keyset they are derived on: the counter handed to the derivation was read for the same keyset id", 4)
 	c.c19CounterKeysetAgreement()
+	R.Rule("R9", "restore answers are computed afresh: the restore endpoint is not served from the mint's response cache (shared with C20.R4; a cached 'nothing signed' batch hides what was signed since)", 10)
 	R.Rule("R7", "a counter value read for deriving outputs is not made stale before those outputs are submitted: no call that itself derives outputs and advances a counter lies between the read and the submission", 3)
 	R.Rule("R6", "the wallet lock is not dropped between reading a keyset counter and advancing it", 3)
 	c.c19LockSpan()
 	c.c19NoNestedUseBetweenReadAndSubmit()
+	c.runAs("R4", "R9", func(cc *Ctx) { cc.c20Cache() })
 
 	// the swap request helper is consistent: outputs derived on the keyset it records
 	if f := c.fn("R1", fnCreateSwap); f != nil {
